@@ -79,7 +79,7 @@ def task_constraints_2(H, tier):
                 out.append(("OrderedTaskGroup", [con("OrderedTaskGroup", "c1", list_of_tasks=[R(x) for x in order], kind=k, **kw)]))
     # ScheduleNTasksInTimeIntervals
     ivs1 = [[iv] for iv in intervals(H) if iv[1] - iv[0] >= 1][:: (1 if tier in ("thorough", "deep") else 2)]
-    ivs2 = [[(0, 2), (2, 4)], [(0, 1), (3, 4)], [(0, 3), (1, 4)], [(0, 2), (1, 3)]]
+    ivs2 = [[(0, 2), (2, 4)], [(0, 1), (3, 4)], [(0, 3), (1, 4)], [(0, 2), (1, 3)], [(0, 1), (1, 2), (3, 4)], [(3, 4), (0, 1), (1, 3)]]
     for ivl in ivs1 + ivs2:
         for n in (0, 1, 2):
             for k in ("exact", "min", "max"):
